@@ -218,4 +218,8 @@ def rule_dep(repo):
 
 
 def rules(repo, tier):
-    return [rule_carry(repo), rule_rank(repo), rule_dir_comp(repo), rule_dep(repo), rule_init(repo)]
+    from ..effects import rule_pure
+    t = [(IMU, CLS + '.forward'), (IMU, CLS + '.integrate'), (IMU, CLS + '.predict'), (IMU, CLS + '.propagate_cov'), (IMU, CLS + '._check')]
+    return [rule_carry(repo), rule_rank(repo), rule_dir_comp(repo), rule_dep(repo), rule_init(repo),
+            rule_pure(repo, 'C16.PURE', 'the integrator does not write in place into the measurement tensors it is given (dt, gyro, acc, rot, init_state): '
+                      'feeding the same stream again, whole or in chunks, starts from the same data', t)]
